@@ -1,5 +1,8 @@
 #![allow(dead_code)]
+mod catalog;
 mod pure;
+mod rfcdec;
+mod sender_drv;
 mod util;
 
 fn main() {
@@ -13,6 +16,7 @@ fn main() {
     match argv[1].as_str() {
         "partition" => pure::partition(&args),
         "partition-big" => pure::partition_big(&args),
+        "replay-sender" => sender_drv::replay_sender(&args),
         c => {
             eprintln!("unknown command {}", c);
             std::process::exit(2);
